@@ -190,6 +190,12 @@ func sameValue(a, b ssa.Value) bool {
 		if ok1 && ok2 && fa.Field == fb.Field && sameValue(fa.X, fb.X) {
 			return true
 		}
+		// the same element of a slice that the function never stores into, read twice
+		ia, ok1 := ua.X.(*ssa.IndexAddr)
+		ib, ok2 := ub.X.(*ssa.IndexAddr)
+		if ok1 && ok2 && ia.X == ib.X && ia.Index == ib.Index && !elementsStored(ia.X) {
+			return true
+		}
 	}
 	fa, ok1 := a.(*ssa.Field)
 	fb, ok2 := b.(*ssa.Field)
@@ -340,4 +346,24 @@ func isHashType(t types.Type) bool {
 func isHashSlice(t types.Type) bool {
 	sl, ok := t.Underlying().(*types.Slice)
 	return ok && isHashType(sl.Elem())
+}
+
+// elementsStored: some element of the slice value s is stored through an
+// IndexAddr on s (in the function that defines the referrers).
+func elementsStored(s ssa.Value) bool {
+	if s.Referrers() == nil {
+		return true
+	}
+	for _, ref := range *s.Referrers() {
+		ia, ok := ref.(*ssa.IndexAddr)
+		if !ok || ia.Referrers() == nil {
+			continue
+		}
+		for _, r2 := range *ia.Referrers() {
+			if st, ok := r2.(*ssa.Store); ok && st.Addr == ia {
+				return true
+			}
+		}
+	}
+	return false
 }
